@@ -11,7 +11,8 @@
    `from .element import NavigableString` in Formatter.substitute, the attribute-dictionary
    __setitem__ reached from the parser adapter, ...).  The definitions follow the code *after*
    the C11 repairs (identity comparison in _event_stream; loops in Tag.string, smooth, _is_xml;
-   __getstate__ dropping next_element); the pre-repair recursion sites are kept at the end of the
+   __getstate__ dropping next_element); and the other properties' repairs merged into the library: searches, copy_self,
+   decompose, the parser adapter); the pre-repair recursion sites are kept at the end of the
    file ([legacy_*]) so that their unboundedness is a theorem too.  No proofs in this file. *)
 From Coq Require Import List NArith ZArith Arith Bool.
 From BS Require Import Base.Sexp Base.Types.
@@ -187,13 +188,13 @@ Definition attribute_match (rules : list rule) (v : option aval) : bool :=
   let vals := attr_strings v in
   helper_matches rules vals ||
   match v with
-  | Some (AvList l) => (1 <? length l) && helper_matches rules [Some (join_sp l)]
+  | Some (AvList l) => negb (Nat.eqb (length l) 1) && helper_matches rules [Some (join_sp l)]   (* len != 1 *)
   | _ => false
   end.
 (* _attribute_match -> _match_attribute_value_helper -> matches_string -> _base_match *)
 Definition d_attribute_match (rules : list rule) (v : option aval) : nat :=
-  let vals := attr_strings v in
-  let inner := match rules, vals with [], _ | _, [] => [] | _, _ => [d_rule_matches_string] end in
+  (* an empty multi-valued attribute has no value to try first, but is then tried as the joined string "" *)
+  let inner := match rules with [] => [] | _ => [d_rule_matches_string] end in
   fr [fr inner].
 
 (* the loop over name rules in matches_tag: (calls so far, matched) *)
@@ -205,7 +206,8 @@ Fixpoint name_rules_loop (rs : list rule) (e : elem) : list nat * bool :=
       let '(calls, m) :=
         if m1 then ([d_rule_matches_tag], true)
         else match prefixed_name e with
-             | Some pn => ([d_rule_matches_tag; d_rule_matches_string], rule_matches r (Some pn))
+             | Some pn => ([d_rule_matches_tag; d_base_match],
+                           match r with RFun _ => false | _ => rule_matches r (Some pn) end)
              | None => ([d_rule_matches_tag], false)
              end in
       if m then (calls, true)
@@ -269,24 +271,20 @@ Definition strainer_match (c : crit) (e : elem) : nat * bool :=
       | _, _ => (leaf, false)
       end
   end.
-(* `if i:` in ElementFilter.filter: Tag.__bool__ is a frame, an empty string is skipped *)
-Definition truthy (e : elem) : bool := match e with EStr _ [] => false | _ => true end.
 (* ElementFilter.filter as consumed by ElementFilter.find_all, which stops at the limit:
    calls made while the generator is resumed *)
 Fixpoint filter_calls (c : crit) (elems : list elem) (found : nat) : list nat :=
   match elems with
   | [] => []
   | e :: rest =>
-      if truthy e then
-        let '(d, m) := strainer_match c e in
-        let here := (if is_tag e then [leaf] else []) ++ [d] in
-        if m then
-          match c_limit c with
-          | Some lim => if lim <=? S found then here else here ++ filter_calls c rest (S found)
-          | None => here ++ filter_calls c rest (S found)
-          end
-        else here ++ filter_calls c rest found
-      else filter_calls c rest found
+      (* `if i is not None:` — every element is offered to match(); a limit of None or 0 is no limit *)
+      let '(d, m) := strainer_match c e in
+      if m then
+        match c_limit c with
+        | Some (S lim) => if S lim <=? S found then [d] else d :: filter_calls c rest (S found)
+        | _ => d :: filter_calls c rest (S found)
+        end
+      else d :: filter_calls c rest found
   end.
 (* ElementFilter.find_all: ResultSet.__init__, then the filter generator (which resumes the
    element generator) *)
@@ -298,15 +296,13 @@ Definition d_find_all_core (c : crit) (elems : list elem) (gen : nat) : nat :=
   let slow := fr [d_strainer_init c; d_strainer_find_all c elems gen] in
   match c_string c, c_attrs c with
   | SNone, [] =>
-      if limit_falsy c then
-        match c_name c with
-        | SNone | SOne (RBool true) =>
-            fr [d_strainer_init c; fr [fr [gen]]]        (* ResultSet.__init__ -> <genexpr> -> generator *)
-        | SOne (RStr _) =>
-            fr [d_strainer_init c; gen; leaf]            (* the loop in _find_all itself ; ResultSet.__init__ *)
-        | _ => slow
-        end
-      else slow
+      match c_name c with
+      | SNone | SOne (RBool true) =>
+          fr [d_strainer_init c; gen; leaf]              (* no criteria: the loop in _find_all itself (any limit) ; ResultSet.__init__ *)
+      | SOne (RStr _) =>
+          if limit_falsy c then fr [d_strainer_init c; gen; leaf] else slow
+      | _ => slow
+      end
   | _, _ => slow
   end.
 (* Tag.find_all / Tag.find / Tag.__getattr__ / Tag.__call__ *)
@@ -424,8 +420,9 @@ Definition d_string_property (e : elem) : nat := leaf.
 Definition d_setup : nat := leaf.
 Definition d_setitem : nat := leaf.                              (* HTML/XMLAttributeDict.__setitem__ *)
 Definition d_nav_new : nat := fr [d_setup].                      (* NavigableString.__new__ -> setup *)
-(* Tag.__init__ without a builder: every attribute through __setitem__, then setup *)
-Definition d_tag_init_nobuilder (e : elem) : nat := fr (map (fun _ => d_setitem) (attrs_of e) ++ [d_setup]).
+(* Tag.__init__ without a builder and without attributes (copy_self copies them afterwards with
+   dict.__setitem__, which is not a frame of the tree code): setup *)
+Definition d_tag_init_nobuilder (e : elem) : nat := fr [d_setup].
 (* BeautifulSoup("", None, builder): deprecated_argument; _markup_is_url / _markup_resembles_filename
    (each with a <genexpr>); reset -> Tag.__init__ -> setup, pushTag; _feed -> endData *)
 Definition d_soup_init_empty : nat :=
@@ -452,7 +449,8 @@ Definition d_getstate (e : elem) : nat := fr [d_decode e [] false (FmtName true)
 (* the editing calls *)
 Definition d_index : nat := leaf.
 Definition d_extract : nat := fr [d_index; d_last_descendant].
-Definition d_decompose : nat := fr [d_extract].
+(* decompose: extract, then the descendants generator collects what is to be wiped *)
+Definition d_decompose (e : elem) : nat := fr (d_extract :: if is_tag e then [d_descendants e] else []).
 Inductive ins_arg :=
 | IStr                       (* a Python str that is not a NavigableString *)
 | IFresh                     (* a PageElement without a parent *)
@@ -485,7 +483,7 @@ Definition d_wrap : nat := fr [d_replace_with [IFresh]; d_append IFresh].
 Definition d_unwrap (e : elem) : nat :=
   fr (d_index :: fr [d_last_descendant] :: map (fun _ => d_insert [IAttached false]) (kids_of e)).
 Definition d_clear (e : elem) (decompose : bool) : nat :=
-  fr (map (fun _ => if decompose then d_decompose else d_extract) (kids_of e)).
+  fr (map (fun k => if decompose then d_decompose k else d_extract) (kids_of e)).
 Definition d_set_string (e : elem) : nat := fr [d_clear e false; d_nav_new; d_append IFresh].
 Definition preformatted (c : N) : bool := match c with 1 | 2 | 3 | 4 | 5 | 6 => true | _ => false end%N.
 Definition mergeable (a b : elem) : bool :=
@@ -653,12 +651,11 @@ Fixpoint pop_to (deep : nat -> nat -> nat) (eqres : nat -> nat -> bool) (fuel : 
   end.
 Definition d_pop_to_tag (deep : nat -> nat -> nat) (eqres : nat -> nat -> bool) (cfg : pconfig) (s : pstate) (name : str)
   : pstate * nat :=
-  if str_eqb name (pc_root cfg) then (s, leaf)
-  else match open_count s name with
+  match open_count s name with
        | 0 => (s, leaf)
        | _ => let '(s', c) := pop_to deep eqres (length (ps_stack s)) s name in
               (s', fr (leaf (* <genexpr> of any(...) *) :: c))
-       end.
+  end.
 (* BeautifulSoup.handle_endtag *)
 Definition soup_handle_endtag deep eqres (cfg : pconfig) (s : pstate) (name : str) : pstate * nat :=
   let e := d_end_data (ps_data s) in
@@ -729,7 +726,8 @@ Definition step deep eqres (cfg : pconfig) (s : pstate) (cb : callback) : pstate
       let is_void := memS name (pc_void cfg) in
       (* `if tag and tag.is_empty_element`: Tag.__bool__, is_empty_element *)
       if selfclosing then
-        let '(s2, c2) := adapter_endtag deep eqres cfg s1 name true in
+        (* handle_startendtag: the end-tag event belongs to the tag just opened (check_already_closed=False) *)
+        let '(s2, c2) := adapter_endtag deep eqres cfg s1 name false in
         (s2, setitems ++ [d1; leaf; leaf] ++ c2)
       else if is_void then
         let '(s2, c2) := adapter_endtag deep eqres cfg s1 name false in
